@@ -54,6 +54,14 @@ def inputs_from_model(ctx_inputs, model, size_hint=None):
             vals[p] = int(parse_num(model.get(d[1], '0')))
         elif d[0] == 'const':
             vals[p] = d[1]
+        elif d[0] == 'draws':
+            # outcomes of np.random.exponential, call k element i = model constant draw<k>_<i>
+            got = {}
+            for nm, v in model.items():
+                m = re.match(r'^draw(\d+)_(\d+)$', nm)
+                if m:
+                    got.setdefault(int(m.group(1)), {})[int(m.group(2))] = float(parse_num(v))
+            vals[p] = [[got.get(k, {}).get(i, 0.0) for i in range(max(got.get(k, {0: 0})) + 1)] for k in range(max(got) + 1)] if got else []
     return vals
 
 
@@ -120,21 +128,65 @@ def truth(f):
     return None
 
 
-def exact_value(st, v):
+def split_hyps(hyps):
+    """-> (all decided hypotheses true?, [hypotheses that still mention symbols])
+    With concrete inputs the only symbols left are the ones an assumed library contract introduced (np.sqrt: r >= 0 and
+    r*r == x); their defining facts are not decided by simplification but by a solver query."""
+    sym = []
+    for h in hyps:
+        t = truth(h)
+        if t is False:
+            return False, []
+        if t is None:
+            sym.append(h)
+    return True, sym
+
+
+def decide(sym_hyps, goal):
+    """truth of a goal that mentions assumed-contract symbols: valid under their defining facts?"""
+    t = truth(goal)
+    if t is not None or not sym_hyps:
+        return t
+    s = z3.Solver()
+    s.set('timeout', 20000)
+    for h in sym_hyps:
+        s.add(h)
+    s.add(z3.Not(goal))
+    r = s.check()
+    return True if r == z3.unsat else (False if r == z3.sat else None)
+
+
+def model_of(sym_hyps):
+    if not sym_hyps:
+        return None
+    s = z3.Solver()
+    s.set('timeout', 20000)
+    for h in sym_hyps:
+        s.add(h)
+    return s.model() if s.check() == z3.sat else False
+
+
+def exact_value(st, v, model=None):
     """exact engine value -> nested python structure of Fractions / 'nan'"""
     if isinstance(v, tuple):
-        return [exact_value(st, x) for x in v]
+        return [exact_value(st, x, model) for x in v]
     if isinstance(v, list):
-        return [exact_value(st, x) for x in v]
+        return [exact_value(st, x, model) for x in v]
     if isinstance(v, (ArrV, LazyArr)):
-        return [exact_value(st, st.elem(v, k)) for k in range(v.n)]
+        return [exact_value(st, st.elem(v, k), model) for k in range(v.n)]
+    if type(v).__name__ == 'Arr2':
+        return [exact_value(st, r, model) for r in v.rows]
     if isinstance(v, NF):
-        t = truth(v.fin)
+        t = truth(v.fin) if model is None else truth(model.eval(v.fin, model_completion=True) if is_z3(v.fin) else v.fin)
         if t is True:
-            return exact_value(st, v.term)
+            return exact_value(st, v.term, model)
         return 'nan'
     if is_z3(v):
         g = z3.simplify(v)
+        if model is not None and not (z3.is_rational_value(g) or z3.is_int_value(g)):
+            g = model.eval(v, model_completion=True)
+            if z3.is_algebraic_value(g):
+                g = g.approx(30)
         if z3.is_rational_value(g):
             return g.as_fraction()
         if z3.is_int_value(g):
@@ -147,7 +199,7 @@ def exact_value(st, v):
     if v is None:
         return None
     if isinstance(v, Rec):
-        return {k: exact_value(st, x) for k, x in st.heap[v.id].items() if not k.startswith('__')}
+        return {k: exact_value(st, x, model) for k, x in st.heap[v.id].items() if not k.startswith('__')}
     return repr(v)
 
 
@@ -208,35 +260,37 @@ def confirm(contract, size, values, repo=None, compiled_standin=False):
     undec = []
     for o in obls:
         # hypotheses are concrete: a false hypothesis means this obligation is not on the executed path
-        hyp_ok = all(truth(h) is True for h in o.hyp)
-        if not hyp_ok:
+        hyp_ok, symh = split_hyps(o.hyp)
+        if not hyp_ok or (symh and model_of(symh) is False):
             continue
-        t = truth(o.goal)
+        t = decide(symh, o.goal) if is_z3(o.goal) else truth(o.goal)
         if t is False:
             failed.append(o.name)
         elif t is None:
             undec.append(o.name)
     exact_out = None
+    on_path = None
     for (st2, pc2, o2) in paths:
-        if all(truth(h) is True for h in pc2.hyp()):
+        ok_, symh = split_hyps(pc2.hyp())
+        mdl = model_of(symh) if ok_ else False
+        if ok_ and mdl is not False:
+            on_path = (st2, mdl)
             if o2 is None:
                 exact_out = ('ret', None)
             elif o2[0] == 'ret':
-                exact_out = ('ret', exact_value(st2, o2[1]))
+                exact_out = ('ret', exact_value(st2, o2[1], mdl))
             else:
                 exact_out = (o2[0], o2[1])
             break
     args = build_args(ctx, values)
     check_self = getattr(ctx, 'check_self', False)
-    real = run_real([dict(rel=contract.rel, func=contract.func, cls=contract.cls, args=args,
+    real = run_real([dict(rel=contract.rel, func=contract.func, cls=contract.cls, args=args, draws=values.get('__draws__'),
                           compiled_standin=compiled_standin or getattr(contract, 'config', None) == 'compiled',
                           return_args=check_self)], repo=repo)[0]
     if check_self and exact_out is not None and exact_out[0] == 'ret':
         # methods that update the receiving object: compare (return value, object after the call)
-        for (st2, pc2, o2) in paths:
-            if all(truth(h) is True for h in pc2.hyp()):
-                exact_out = ('ret', [exact_out[1], exact_value(st2, st2.vars['self'])])
-                break
+        if on_path is not None:
+            exact_out = ('ret', [exact_out[1], exact_value(on_path[0], on_path[0].vars['self'], on_path[1])])
         if real['ok']:
             real = dict(real)
             real['result'] = {'__list__': [real['result'], real['args_after'][0]]}
